@@ -48,7 +48,7 @@ def Inst.texts : Inst → List String
   | .wild ns => Node.textsL ns
   | .seqR rounds => Inst.textsLL rounds
   | .choiceR rounds => Inst.textsC rounds
-  | .allR members other _ => Inst.textsL members ++ Node.textsL other
+  | .allR members other => Inst.textsL members ++ Node.textsL other
   | .groupR rounds => Inst.textsL rounds
   | .failed => []
 def Inst.textsL : List Inst → List String
@@ -80,7 +80,7 @@ def ShapedInst : Particle → Inst → Prop
   | .any _ _, .wild _ => True
   | .seq ps _ _, .seqR rounds => ShapedRounds ps rounds
   | .choice ps _ _, .choiceR rounds => ShapedChoice ps rounds
-  | .all ps _, .allR members _ _ => ShapedList ps members
+  | .all ps _, .allR members _ => ShapedList ps members
   | .group p _ _, .groupR rounds => ShapedGroup p rounds
   | _, _ => False
 def ShapedList : List Particle → List Inst → Prop
@@ -139,7 +139,7 @@ theorem texts_serInst : ∀ (p : Particle) (i : Inst), ShapedInst p i → Node.t
   | .choice ps _ _, .choiceR rounds, h => by
     simp only [ShapedInst] at h
     simp [serInst, Inst.texts, texts_serChoice ps rounds h]
-  | .all ps _, .allR members other _, h => by
+  | .all ps _, .allR members other, h => by
     simp only [ShapedInst] at h
     simp [serInst, Inst.texts, Node.textsL_append, texts_serList ps members h]
   | .group p _ _, .groupR rounds, h => by
@@ -227,7 +227,7 @@ def Inst.foreign : Inst → List Node
   | .wild ns => ns
   | .seqR rounds => Inst.foreignLL rounds
   | .choiceR rounds => Inst.foreignC rounds
-  | .allR members other _ => Inst.foreignL members ++ other
+  | .allR members other => Inst.foreignL members ++ other
   | .groupR rounds => Inst.foreignL rounds
   | .failed => []
 def Inst.foreignL : List Inst → List Node
@@ -299,7 +299,7 @@ theorem names_serInst : ∀ (p : Particle) (i : Inst) (n : Node), n ∈ serInst 
   | .choice ps _ _, .choiceR rounds, n, h => by
     simp only [serInst] at h
     simpa [Particle.tags, Inst.foreign] using names_serChoice ps rounds n h
-  | .all ps _, .allR members other _, n, h => by
+  | .all ps _, .allR members other, n, h => by
     simp only [serInst, List.mem_append] at h
     rcases h with h | h
     · rcases names_serList ps members n h with h1 | h1
@@ -416,7 +416,7 @@ private def pAll : Particle :=
 private def iAll : Inst :=
   .seqR [[.elems [.leaf (some "0")],
           .choiceR [(1, .elems [.simpleContent (some "t") [(⟨none, "k"⟩, "v")] []]), (0, .elems [.leaf (some "")])],
-          .allR [.elems []] [] [],
+          .allR [.elems []] [],
           .groupR [.seqR [[.elems [.leaf none]]]],
           .wild [.mk ⟨some "urn:x", "w"⟩ [] (some "z") []]]]
 
